@@ -2,7 +2,7 @@
    Only statements here; proofs are [exact <lemma of Net/Proofs2.v>]. *)
 From Coq Require Import List NArith ZArith Permutation.
 From SF Require Import Base.Str Net.Model Net.Util Net.Proofs Net.Proofs2.
-From SF Require Tags.Model Gather.Model Gather.Proofs Loop.Model Loop.Proofs Net.Contracts Net.ContractsComb.
+From SF Require Tags.Model Gather.Model Gather.Proofs Loop.Model Loop.Proofs Net.Contracts Net.ContractsComb Net.MixedModel Net.MixedProofs Net.MixedProofs2.
 Import ListNotations.
 Local Open Scope string_scope. Local Open Scope list_scope.
 
@@ -56,6 +56,38 @@ Theorem C05_bags_determinate_partial :
     forall p, match p with SOut s _ => s < nsteps | WIn _ => True end ->
     Permutation (hist W1 O1 p) (hist W2 O2 p).
 Proof. exact port_bags_agree. Qed.
+
+(* ---- operational version for networks of log machines (sequential steps and merge-style steps; Net/MixedModel.v):
+   for a well-formed network whose machines honour the log contract, terminate only after having consumed the
+   termination token of every input, and are order-insensitive AS MACHINES (two terminated logs whose projections
+   on every input are permutations of each other give permutation-equal output histories), ANY two executions —
+   any two interleavings of arrivals — that end with every step terminated carry permutation-equal histories on
+   every port.  Here the link between the operational network and the per-step statement is proved (a terminated
+   step has consumed exactly the complete history of each input, whatever the interleaving).
+   _partial: the two machine-level hypotheses are not discharged here for GatherStep / combinators / loop output
+   (C05_contract_* give them on shaped arrival lists in each model's vocabulary; turning "shaped" into an invariant
+   of the network is not done), and steps that terminate early (a failing step; a multi-input Transformer ending at
+   the first termination token) are excluded by the second hypothesis. *)
+Theorem C05_mixed_bags_partial :
+  forall (T spec : Type) (s_ins : spec -> list src) (s_nout : spec -> nat)
+         (outs : spec -> Net.MixedModel.log T -> list (list (Net.MixedModel.mtok T)))
+         (done : spec -> Net.MixedModel.log T -> bool) (accept : spec -> Net.MixedModel.log T -> nat -> bool)
+         (win : list (list (Net.MixedModel.mtok T))) (specs : list spec),
+    Net.MixedModel.log_contract T spec s_ins s_nout outs done accept ->
+    Net.MixedModel.mwf T spec s_ins s_nout win specs ->
+    (forall k, k < length win -> exists d s, nth k win [] = d ++ [Net.MixedModel.E s] /\ Net.MixedModel.term_free_m T d) ->
+    (forall sp l, done sp l = true -> forall j, j < length (s_ins sp) -> Net.MixedModel.port_closed T j l = true) ->
+    (forall sp l1 l2, done sp l1 = true -> done sp l2 = true ->
+       (forall j, j < length (s_ins sp) -> Permutation (Net.MixedModel.proj T j l1) (Net.MixedModel.proj T j l2)) ->
+       forall j, Permutation (nth j (outs sp l1) []) (nth j (outs sp l2) [])) ->
+    forall ch1 ch2 st1 st2,
+      Net.MixedModel.mexec T spec s_ins outs done accept win specs (Net.MixedModel.minit T spec specs) ch1 = Some st1 ->
+      Net.MixedModel.mexec T spec s_ins outs done accept win specs (Net.MixedModel.minit T spec specs) ch2 = Some st2 ->
+      Net.MixedModel.all_done T spec done specs st1 -> Net.MixedModel.all_done T spec done specs st2 ->
+      forall p, match p with SOut s _ => s < length specs | WIn k => k < length win end ->
+        Permutation (Net.MixedModel.mcontent T spec outs win specs st1 p)
+                    (Net.MixedModel.mcontent T spec outs win specs st2 p).
+Proof. exact Net.MixedProofs2.mixed_bags. Qed.
 
 (* ---- order-insensitivity of the merge-style steps, from their own proved models (each in its model's token
    type).  These are the instances of the hypothesis [insensitive] of C05_bags_determinate_partial that are
@@ -119,3 +151,4 @@ Print Assumptions C05_contract_gather.
 Print Assumptions C05_contract_loop_output.
 Print Assumptions C05_contract_dot_flat.
 Print Assumptions C05_contract_cartesian.
+Print Assumptions C05_mixed_bags_partial.
